@@ -33,7 +33,7 @@ type resize struct {
 // TestPropAcquireReleaseResizeSchedules: concurrent acquire / release / resize under a harness-owned schedule.
 func TestPropAcquireReleaseResizeSchedules(t *testing.T) {
 	sub := stats.NewSub("acquire-release-resize-schedules", "rapid + deterministic scheduler (schedule points and scheduler-aware mutexes inserted at check time into flowcontrol.go, flowcontrol_wrapper.go and the atomic bucket of github.com/zoumo/golib): 2-4 worker threads with scripts of acquire / release (a worker releases only what it acquired, exactly once) and optionally one configuration thread resizing the max-in-flight schema (M -> M'), through UpstreamLimiter.Sync and GetOrDefault(name).TryAcquire()/Release(); the interleaving is given by 0-5 rapid-drawn pre-emption points; oracle: for every successful TryAcquire, the requests whose admission completed before the call started and whose release had not started when it ended number fewer than the largest limit in force during the call; at quiescence exactly M' new acquisitions succeed (no leak, no over-release); deadlock or panic is a violation; non-trivial = at least one thread is pre-empted before its script ends and the limit is reached at least once or a resize is concurrent; distinct by FNV-64 of (scripts, schedule)")
-	stats.Check(t, stats.N(2500, 40000), func(t *rapid.T) {
+	stats.Check(t, stats.N(6000, 50000), func(t *rapid.T) {
 		m0 := int32(rapid.IntRange(1, 3).Draw(t, "M"))
 		nWorkers := rapid.IntRange(2, 4).Draw(t, "workers")
 		scripts := make([][]bool, nWorkers) // true = acquire, false = release
